@@ -24,10 +24,10 @@ import (
 	enginetypes "github.com/projecteru2/core/engine/types"
 	"github.com/projecteru2/core/resource/cobalt"
 	"github.com/projecteru2/core/resource/plugins"
-	"github.com/projecteru2/core/resource/plugins/mocks"
-	plugintypes "github.com/projecteru2/core/resource/plugins/types"
 	"github.com/projecteru2/core/resource/plugins/cpumem"
 	ctypes "github.com/projecteru2/core/resource/plugins/cpumem/types"
+	"github.com/projecteru2/core/resource/plugins/mocks"
+	plugintypes "github.com/projecteru2/core/resource/plugins/types"
 	resourcetypes "github.com/projecteru2/core/resource/types"
 	coretypes "github.com/projecteru2/core/types"
 )
@@ -140,6 +140,41 @@ func (f *faulty) FixNodeResource(context.Context, string, []resourcetypes.RawPar
 	return &plugintypes.GetNodeResourceInfoResponse{}, nil
 }
 
+// ---------- infrastructure flakes ----------
+// The embedded etcd can time out when the machine is overloaded.  Such an error
+// says nothing about the code under test: the current case is abandoned (not
+// emitted) instead of being recorded as an outcome.
+type infraErr struct{ err error }
+
+func isInfra(err error) bool {
+	if err == nil {
+		return false
+	}
+	m := err.Error()
+	return strings.Contains(m, "request timed out") || strings.Contains(m, "context deadline exceeded") ||
+		strings.Contains(m, "too many requests") || strings.Contains(m, "leader changed")
+}
+
+func checkInfra(err error) {
+	if isInfra(err) {
+		panic(infraErr{err})
+	}
+}
+
+// guarded runs one case; an infrastructure flake abandons it
+func guarded(r *vh.Run, f func()) {
+	defer func() {
+		if x := recover(); x != nil {
+			if _, ok := x.(infraErr); ok {
+				r.Count("abandoned=infrastructure")
+				return
+			}
+			panic(x)
+		}
+	}()
+	f()
+}
+
 // ---------- the world ----------
 type world struct {
 	t     *testing.T
@@ -162,8 +197,8 @@ func newFaultyWorld(t *testing.T, base, maxShare int) *world {
 func newWorld(t *testing.T, base, maxShare int) *world {
 	ctx := context.Background()
 	cfg := coretypes.Config{
-		Etcd:      coretypes.EtcdConfig{Prefix: "/verif-c08"},
-		Scheduler: coretypes.SchedulerConfig{MaxShare: maxShare, ShareBase: base},
+		Etcd:          coretypes.EtcdConfig{Prefix: "/verif-c08"},
+		Scheduler:     coretypes.SchedulerConfig{MaxShare: maxShare, ShareBase: base},
 		GlobalTimeout: 30 * time.Second,
 	}
 	pl, err := cpumem.NewPlugin(ctx, cfg, t)
@@ -226,6 +261,7 @@ func (w *world) addNode(spec nodeSpec) string {
 		req["numa-memory"] = mems
 	}
 	if _, err := w.mgr.AddNode(w.ctx, name, resourcetypes.Resources{pluginName: req}, nil); err != nil {
+		checkInfra(err)
 		w.t.Fatalf("AddNode: %v", err)
 	}
 	return name
@@ -300,6 +336,7 @@ func (w *world) read(node string, live []*workload) (*ctypes.NodeResource, *ctyp
 	}
 	capR, usageR, lines, err := w.mgr.GetNodeResourceInfo(w.ctx, node, w.coreWorkloads(live), false)
 	if err != nil {
+		checkInfra(err)
 		w.t.Fatalf("GetNodeResourceInfo: %v", err)
 	}
 	capacity, usage := &ctypes.NodeResource{}, &ctypes.NodeResource{}
@@ -323,6 +360,7 @@ func (w *world) read(node string, live []*workload) (*ctypes.NodeResource, *ctyp
 func (w *world) remap(node string, live []*workload) (string, []map[string]any, bool) {
 	r, err := w.mgr.Remap(w.ctx, node, w.coreWorkloads(live))
 	if err != nil {
+		checkInfra(err)
 		w.t.Fatalf("Remap: %v", err)
 	}
 	items := []string{}
@@ -355,7 +393,7 @@ func (w *world) remap(node string, live []*workload) (string, []map[string]any, 
 // ---------- generators ----------
 type gen struct{ r *vh.Run }
 
-func (g gen) intn(n int) int         { return g.r.Rng.Intn(n) }
+func (g gen) intn(n int) int        { return g.r.Rng.Intn(n) }
 func (g gen) chance(p float64) bool { return g.r.Rng.Float64() < p }
 
 func (g gen) nodeSpec(base int, wholeOnly bool) nodeSpec {
@@ -461,7 +499,7 @@ type sop struct {
 	kind  string
 	opts  resourcetypes.RawParams
 	label string
-	count int // alloc: deploy count; realloc: live position
+	count int    // alloc: deploy count; realloc: live position
 	fault string // "", "commit" or "calc": scripted failure of the second plugin during this operation
 }
 
@@ -508,6 +546,7 @@ func (g gen) history(w *world, spec nodeSpec, nops int, whole bool, jsonTrip boo
 	var last *lastOp
 
 	observe := func(opTerm, opName string, detail any, err error, delta *ctypes.WorkloadResource) {
+		checkInfra(err)
 		if w.fault != nil {
 			w.fault.failCommit, w.fault.failCalc = false, false
 		}
@@ -736,12 +775,17 @@ func TestC08(t *testing.T) {
 	w := newFaultyWorld(t, 100, -1)
 
 	emit := func(kind string, spec nodeSpec, nops int, whole, jsonTrip bool, script []sop) {
-		term, desc, tags, nontrivial := g.history(w, spec, nops, whole, jsonTrip, script)
-		tags["kind"] = kind
-		r.Count("kind=" + kind)
-		r.Count("node=" + spec.describe)
-		r.Count(fmt.Sprintf("json_round_trip=%v", jsonTrip))
-		r.Add(term, desc, tags, nontrivial)
+		guarded(r, func() {
+			if w.fault != nil {
+				w.fault.failCommit, w.fault.failCalc = false, false
+			}
+			term, desc, tags, nontrivial := g.history(w, spec, nops, whole, jsonTrip, script)
+			tags["kind"] = kind
+			r.Count("kind=" + kind)
+			r.Count("node=" + spec.describe)
+			r.Count(fmt.Sprintf("json_round_trip=%v", jsonTrip))
+			r.Add(term, desc, tags, nontrivial)
+		})
 	}
 
 	// ---- corpus ----
@@ -771,7 +815,7 @@ func TestC08(t *testing.T) {
 		withFault(keepRealloc(0, 0, 50, "keep-samecpu"), "commit"), withFault(boundAlloc(1, 0, 1), "calc"), plainOp("release")})
 
 	// ---- random histories ----
-	n := r.N(80, 3000)
+	n := r.N(80, 1500)
 	for i := 0; i < n; i++ {
 		whole := g.chance(0.5)
 		spec := g.nodeSpec(100, whole)
